@@ -1,7 +1,11 @@
 SPECIFICATION Spec
 CONSTANTS
   Invalidate = TRUE
+  ShareTimes = TRUE
+  InPlace = FALSE
   MaxLen = 3
+  Small = TRUE
 INVARIANT Coherent
-INVARIANT CachesCurrent
+INVARIANT Independent
+INVARIANT DurationLaw
 INVARIANT LayoutsAgree
